@@ -53,9 +53,17 @@ func propTable() map[string]*PropSpec {
 			th[i].RequireReach = []string{"C06.total_gt_2^53", "C06.two_quorums"}
 			th[i].AssertTimeout = 300
 		}
+		for _, il := range []int{1, 3, 20, 21} {
+			c := arith(rc(fmt.Sprintf("C06_IdShapes/idlen=%d,m=3", il), "services/quorum", "C06_IdShapes", map[string]int{"idlen": il, "m": 3}))
+			c.RequireReach = []string{"C06.shapes.quorum"}
+			th = append(th, c)
+			if il == 1 || il == 21 {
+				q = append(q, c)
+			}
+		}
 		t["C06"] = &PropSpec{ID: "C06", Quick: q, Thorough: th,
 			Assumptions: []string{"total committee weight fits in 64 bits and is positive (the property's precondition)", "committee ids are the distinct one-byte ids 1..n; list entries are arbitrary one-byte ids (duplicates, outsiders), plus fixed empty/two-byte/nil ids"},
-			Bounds:      []string{"n=4, lists of 5 ids (quick); n=4..7, lists of n+2 ids (thorough); weights fully symbolic 64-bit"},
+			Bounds:      []string{"n=4, lists of 5 ids (quick); n=4..7, lists of n+2 ids (thorough); weights fully symbolic 64-bit", "id shapes: committee of 4 whose ids have length 1 / 21 (quick) or 1, 3, 20, 21 (thorough) and share all but their last byte; lists of 3 entries of length L-1, L or L+1 with symbolic tail bytes"},
 			Outside:     []string{"committees larger than 7 members; id lists longer than n+2; ids longer than one byte other than the fixed samples"},
 		}
 	}
@@ -524,6 +532,12 @@ func propTable() map[string]*PropSpec {
 		fr.RequireReach = []string{"C13.future.committed_from_cache"}
 		q = append(q, fr)
 		th = append(th, fr)
+		for _, me := range []int{0, 1} {
+			c := rc(fmt.Sprintf("C14_SyncDuringCommit/me=%d", me), ".", "C14_SyncDuringCommit", map[string]int{"me": me})
+			c.RequireReach = []string{"C14.sync_during_commit"}
+			q = append(q, c)
+			th = append(th, c)
+		}
 		t["C17"] = &PropSpec{ID: "C17", Quick: q, Thorough: th, LabelPrefixes: []string{"C17."},
 			Assumptions: []string{"messages are PREPAREs built with the real factory; the message number is carried in the (concrete) view field; reading of the ordering clause: 'before it' = before the node starts height H (DESIGN.md section 6/C17)"},
 			Bounds:      []string{"k operations (quick 3 and 4, thorough up to 5), each a symbolic choice of receive(message with symbolic 64-bit height, symbolic instance, symbolic sender byte) or advance(symbolic larger height); start height symbolic >= 1"},
@@ -581,6 +595,20 @@ func propTable() map[string]*PropSpec {
 			c.RequireReach = []string{"C13.future.committed_from_cache"}
 			th = append(th, c)
 			if me == 1 {
+				q = append(q, c)
+			}
+		}
+		for _, me := range []int{0, 1} {
+			c := rc(fmt.Sprintf("C14_SyncDuringCommit/me=%d", me), ".", "C14_SyncDuringCommit", map[string]int{"me": me})
+			c.RequireReach = []string{"C14.sync_during_commit"}
+			q = append(q, c)
+			th = append(th, c)
+		}
+		for _, me := range []int{2, 3} {
+			c := rc(fmt.Sprintf("C13_CommitThenPrepared/me=%d", me), ".", "C13_CommitThenPrepared", map[string]int{"me": me})
+			c.RequireReach = []string{"C13.ctp.prepared_in_view1", "C13.ctp.moved_on"}
+			th = append(th, c)
+			if me == 2 {
 				q = append(q, c)
 			}
 		}
